@@ -1,14 +1,18 @@
+// Command gosx: bounded symbolic execution of go-ipfs-log's SSA with an SMT solver.
+//
+//	gosx run   -fn H_x [-explore -pb n -race] [-p K=V,K=V] [-j 16]     (development)
+//	gosx check -prop C16 -tier quick|thorough                           (registry-driven; evidence; replay; exit code)
+//	gosx replay <dir>                                                    (native re-run of a stored counterexample)
 package main
 
 import (
-	"encoding/json"
 	"flag"
 	"fmt"
 	"os"
 	"path/filepath"
 	"sort"
+	"strconv"
 	"strings"
-	"sync"
 	"time"
 
 	"gosx/interp"
@@ -18,43 +22,63 @@ import (
 	"golang.org/x/tools/go/ssa/ssautil"
 )
 
-func main() {
-	harnessDir := flag.String("harness", "/tmp/gosx/harness", "directory with harness .go files (package zz_verif) and vx/")
-	fnName := flag.String("fn", "", "harness function")
-	workers := flag.Int("j", 16, "workers")
-	trace := flag.Bool("trace", false, "trace instructions")
-	maxPaths := flag.Int("maxpaths", 0, "stop after n paths")
-	flag.Parse()
+var (
+	verifRoot = envOr("VERIF_ROOT", "/verif")
+	repoRoot  = envOr("VERIF_REPO", "/repo")
+)
 
-	t0 := time.Now()
-	overlay := map[string][]byte{}
-	add := func(virt, real string) {
-		b, err := os.ReadFile(real)
-		if err != nil {
-			panic(err)
-		}
-		overlay[virt] = b
+func envOr(k, d string) string {
+	if v := os.Getenv(k); v != "" {
+		return v
 	}
-	hs, _ := filepath.Glob(filepath.Join(*harnessDir, "*.go"))
+	return d
+}
+
+func harnessDir() string { return filepath.Join(verifRoot, "harness") }
+
+// overlayFiles maps virtual paths inside /repo to the real harness files.
+func overlayFiles() map[string]string {
+	out := map[string]string{}
+	hs, _ := filepath.Glob(filepath.Join(harnessDir(), "*.go"))
 	for _, h := range hs {
-		add("/repo/zz_verif/"+filepath.Base(h), h)
+		out[filepath.Join(repoRoot, "zz_verif", filepath.Base(h))] = h
 	}
-	vs, _ := filepath.Glob(filepath.Join(*harnessDir, "vx", "*.go"))
+	vs, _ := filepath.Glob(filepath.Join(harnessDir(), "vx", "*.go"))
 	for _, v := range vs {
-		add("/repo/internal/vx/"+filepath.Base(v), v)
+		out[filepath.Join(repoRoot, "internal", "vx", filepath.Base(v))] = v
 	}
 	for _, kv := range strings.Split(os.Getenv("GOSX_OVERLAY"), ",") {
 		if parts := strings.SplitN(kv, "=", 2); len(parts) == 2 {
-			add(parts[0], parts[1])
+			out[parts[0]] = parts[1]
 		}
 	}
-	cfg := &packages.Config{Mode: packages.LoadAllSyntax, Dir: "/repo", Overlay: overlay, Env: append(os.Environ(), "GOFLAGS=-mod=mod")}
+	return out
+}
+
+type loaded struct {
+	prog   *ssa.Program
+	hp     *ssa.Package
+	loadS  float64
+}
+
+func load() *loaded {
+	t0 := time.Now()
+	overlay := map[string][]byte{}
+	for virt, real := range overlayFiles() {
+		b, err := os.ReadFile(real)
+		if err != nil {
+			fatal(2, "read %s: %v", real, err)
+		}
+		overlay[virt] = b
+	}
+	cfg := &packages.Config{Mode: packages.LoadAllSyntax, Dir: repoRoot, Overlay: overlay, BuildFlags: []string{"-tags=verif"},
+		Env: append(os.Environ(), "GOFLAGS=-mod=mod", "GOPROXY=off", "GOSUMDB=off", "GOTOOLCHAIN=local")}
 	pkgs, err := packages.Load(cfg, "./zz_verif")
 	if err != nil {
-		panic(err)
+		fatal(2, "load: %v", err)
 	}
 	if packages.PrintErrors(pkgs) > 0 {
-		os.Exit(2)
+		fatal(2, "INCONCLUSIVE: %s does not type-check with the harness (see errors above)", repoRoot)
 	}
 	prog, spkgs := ssautil.AllPackages(pkgs, ssa.InstantiateGenerics)
 	hp := spkgs[0]
@@ -64,53 +88,123 @@ func main() {
 			p.Build()
 		}
 	}
-	fn := hp.Func(*fnName)
-	if fn == nil {
-		fmt.Println("no such harness function", *fnName)
-		os.Exit(2)
-	}
-	fmt.Printf("loaded in %v\n", time.Since(t0))
+	return &loaded{prog: prog, hp: hp, loadS: time.Since(t0).Seconds()}
+}
 
+func fatal(code int, f string, a ...interface{}) {
+	fmt.Fprintf(os.Stderr, f+"\n", a...)
+	os.Exit(code)
+}
+
+func parseParams(s string) map[string]int {
+	out := map[string]int{}
+	for _, kv := range strings.Split(s, ",") {
+		if p := strings.SplitN(kv, "=", 2); len(p) == 2 {
+			n, _ := strconv.Atoi(p[1])
+			out[p[0]] = n
+		}
+	}
+	return out
+}
+
+func main() {
+	if len(os.Args) < 2 {
+		fatal(2, "usage: gosx run|check|replay ...")
+	}
+	switch os.Args[1] {
+	case "run":
+		cmdRun(os.Args[2:])
+	case "check":
+		cmdCheck(os.Args[2:])
+	case "replay":
+		cmdReplay(os.Args[2:])
+	default:
+		fatal(2, "unknown command %s", os.Args[1])
+	}
+}
+
+func cmdRun(args []string) {
+	fs := flag.NewFlagSet("run", flag.ExitOnError)
+	fnName := fs.String("fn", "", "harness function")
+	workers := fs.Int("j", 16, "workers")
+	trace := fs.Bool("trace", false, "trace instructions")
+	maxPaths := fs.Int("maxpaths", 0, "stop after n paths")
+	explore := fs.Bool("explore", false, "explore all schedules")
+	pb := fs.Int("pb", -1, "preemption bound")
+	race := fs.Bool("race", false, "race detector")
+	params := fs.String("p", "", "K=V,K=V harness parameters")
+	replayV := fs.Bool("replay", false, "replay violations natively")
+	budget := fs.Duration("budget", 0, "wall clock budget")
+	fs.Parse(args)
+	ld := load()
+	fn := ld.hp.Func(*fnName)
+	if fn == nil {
+		fatal(2, "no such harness function %s", *fnName)
+	}
+	fmt.Printf("loaded in %.1fs\n", ld.loadS)
 	if os.Getenv("GOSX_SITES") != "" {
 		interp.EnableDebugSites()
 	}
-	ex := interp.NewExplorer(prog, fn, *workers)
-	ex.Trace = *trace
-	ex.MaxPaths = *maxPaths
-	t1 := time.Now()
+	ex := interp.NewExplorer(ld.prog, interp.RunConfig{Fn: fn, Name: *fnName, Params: parseParams(*params), Explore: *explore, PB: *pb, Race: *race,
+		Workers: *workers, MaxPaths: *maxPaths, Trace: *trace, Budget: *budget, SolverArgv: solverArgv()})
 	ex.Run()
-	wall := time.Since(t1)
-	st := ex.Total
-	fmt.Printf("paths=%d aborted=%d inconclusive=%d instrs=%d decisions=%d branchQ=%d assertQ=%d modelHits=%d obligations=%d discharged=%d violations=%d sched=%d solver=%.2fs wall=%v\n",
-		ex.Paths, ex.Aborted, len(ex.Inconclusive), st.Instrs, st.Decisions, st.BranchQueries, st.AssertQueries, st.ModelHits, st.Obligations, st.Discharged, len(ex.Violations), st.SchedPoints, ex.SolverTime.Seconds(), wall)
-	var mu sync.Mutex
-	_ = mu
-	for i, inc := range ex.Inconclusive {
-		if i < 5 {
-			fmt.Println("INCONCLUSIVE:", inc)
+	printSummary(ex)
+	if *replayV && len(ex.Violations) > 0 {
+		nb, err := buildNative(false)
+		if err != nil {
+			fatal(2, "native build: %v", err)
 		}
+		defer nb.cleanup()
+		seen := map[string]bool{}
+		for _, v := range ex.Violations {
+			if seen[v.Sig] || v.Replay == nil {
+				continue
+			}
+			seen[v.Sig] = true
+			res := nb.run(v.Replay, "")
+			fmt.Printf("REPLAY %q confirmed=%v failures=%v\n", v.Sig, res.confirms(v.Sig), res.Failures)
+		}
+	}
+}
+
+func solverArgv() []string {
+	if s := os.Getenv("GOSX_SOLVER"); s != "" {
+		return strings.Fields(s)
+	}
+	return []string{"z3-new", "-in"}
+}
+
+func printSummary(ex *interp.Explorer) {
+	st := ex.Total
+	fmt.Printf("paths=%d ok=%d aborted=%d inconclusive=%d instrs=%d decisions=%d branchQ=%d assertQ=%d modelHits=%d obligations=%d discharged=%d violations=%d sched=%d solver=%.2fs wall=%v exhaustive=%v\n",
+		ex.Paths, ex.OKPaths, ex.Aborted, len(ex.Inconclusive), st.Instrs, st.Decisions, st.BranchQueries, st.AssertQueries, st.ModelHits, st.Obligations, st.Discharged, len(ex.Violations), st.SchedPoints, ex.SolverTime.Seconds(), ex.Wall, ex.Exhaustive)
+	incs := map[string]int{}
+	for _, inc := range ex.Inconclusive {
+		incs[inc]++
+	}
+	i := 0
+	for inc, n := range incs {
+		if i < 8 {
+			fmt.Printf("INCONCLUSIVE %dx: %s\n", n, inc)
+		}
+		i++
 	}
 	seen := map[string]int{}
 	for _, v := range ex.Violations {
-		k := v.Prop + " | " + v.Msg
-		seen[k]++
-		if seen[k] == 1 {
-			m, _ := json.Marshal(v.Model)
-			fmt.Printf("VIOLATION %s model=%s\n", k, m)
+		seen[v.Sig]++
+		if seen[v.Sig] == 1 && v.Replay != nil {
+			fmt.Printf("VIOLATION %s detail=%q vals=%v bytes=%v\n", v.Sig, v.Detail, v.Replay.Vals, v.Replay.Bytes)
 		}
 	}
-	for k, n := range seen {
-		fmt.Printf("  %dx %s\n", n, k)
+	var ks []string
+	for k := range seen {
+		ks = append(ks, k)
 	}
-	var fns []string
-	for f, n := range ex.Funcs {
-		fns = append(fns, fmt.Sprintf("%s(%d)", f, n))
+	sort.Strings(ks)
+	for _, k := range ks {
+		fmt.Printf("  %dx %s\n", seen[k], k)
 	}
-	sort.Strings(fns)
-	fmt.Printf("functions entered: %d\n", len(fns))
-	if len(fns) < 80 {
-		fmt.Println(strings.Join(fns, " "))
-	}
+	fmt.Printf("functions entered: %d\n", len(ex.Funcs))
 	for k, n := range interp.DebugSites() {
 		fmt.Printf("SITE %6d %s\n", n, k)
 	}
